@@ -20,11 +20,22 @@ def make_signal(rec):
         x = np.arange(n, dtype=np.float64) / max(1, n) - 0.37
     elif kind == "const":
         x = np.full(n, 0.61)
+    elif kind == "click":
+        # a huge click inside very quiet noise: dynamic range of ~1e9 within one frame's neighbourhood
+        x = g.standard_normal(n) * 1e-3
+        if n:
+            idx = g.integers(0, n, size=max(1, n // 400))
+            x[idx] = 3e6 * np.sign(g.standard_normal(len(idx)) + 0.1)
     elif kind == "literal":
         x = np.asarray(rec["values"], dtype=np.float64)
     else:
         raise ValueError(kind)
     x = (x * float(rec.get("amp", 1.0))).astype(rec.get("dtype", "float64"))
+    po = rec.get("poison")
+    if po and n:
+        # sample VALUES a recording may legally carry: drop-out markers, overflowed samples
+        i = min(n - 1, int(po["pos"] * n))
+        x[i] = {"nan": np.nan, "inf": np.inf, "-inf": -np.inf, "huge": 1e200 if x.dtype == np.float64 else 3e38}[po["value"]]
     return x
 
 
@@ -32,12 +43,28 @@ def deliver(x, a, ln, mem):
     """The chunk object handed to compute_chunk for samples [a, a+ln)."""
     if mem == "copy":
         return x[a : a + ln].copy()
+    if mem in ("strided_w", "swapped_w"):
+        # same layout as 'strided' / 'swapped' but writable (what a fresh twin is fed: read-only input must make no
+        # difference, writable input must not be written to)
+        v = deliver(x, a, ln, mem[:-2])
+        v = v.copy() if mem == "swapped_w" else v
+        if mem == "strided_w":
+            y = np.empty(2 * ln, dtype=x.dtype)
+            y[0::2] = x[a : a + ln]
+            y[1::2] = 7.5
+            v = y[0::2]
+        return v
     if mem == "strided":
         # a non-contiguous read-only view holding the same samples (e.g. one channel of an interleaved buffer)
         y = np.empty(2 * ln, dtype=x.dtype)
         y[0::2] = x[a : a + ln]
         y[1::2] = 7.5
         v = y[0::2]
+        v.flags.writeable = False
+        return v
+    if mem == "swapped":
+        # same samples in the non-native byte order (e.g. read straight from a big-endian file)
+        v = x[a : a + ln].astype(x.dtype.newbyteorder())
         v.flags.writeable = False
         return v
     if mem == "scratch":
@@ -136,5 +163,7 @@ def gen_deliveries(rng, n, L, S, block, max_deliveries=64):
     pm = rng.choice((0.0, 0.5, 1.0))
     ps = rng.choice((0.0, 0.0, 0.3))
     pr = rng.choice((0.0, 0.0, 0.0, 0.5, 1.0))
+    if rng.random() < 0.04:
+        return [[int(k), "swapped"] for k in out]  # a whole stream in the non-native byte order
     return [[int(k), "strided" if rng.random() < ps else ("scratch" if rng.random() < pr else
                                                            ("copy" if rng.random() < pm else "ro"))] for k in out]
